@@ -16,6 +16,6 @@ P = {
     ],
     "tiers": tiers(
         quick=[{"name": "rand", "mode": "run", "count": 1000, "max_size": 100, "shards": 12}],
-        thorough=[{"name": "rand", "mode": "run", "count": 6000, "max_size": 100, "shards": 16}],
+        thorough=[{"name": "rand", "mode": "run", "count": 40000, "max_size": 100, "shards": 16, "max_seconds": 1200}],
     ),
 }
